@@ -178,13 +178,10 @@ def region_creation(ctx, report):
                  "a layout gets a region as soon as ANY of origin, extent, padding, alignment is present",
                  {"tested": tested, "required": want, "problems": bad[:4], "paths_creating": len(created),
                   "paths_skipping": len(skipped)}, "1")
-    col = ctx.index.get_function(DFXP, "RegionCreator._collect_unique_regions", inline=True)
-    report.covered(col)
-    adds = [src(c.args[0]) for c in walk_no_nested(col.node) if isinstance(c, ast.Call) and
-            (call_name(c) or "").endswith("unique_regions.add")]
-    want_add = ["layout_info", "caption.layout_info", "node.layout_info"]
-    report.check(adds == want_add, "R-COMPLETE-CASES", col, "language, caption and node layouts are all collected, in that order",
-                 {"found": adds}, "1")
+    # that language-, caption- and node-level layouts are all collected is decided on the folded DFXP documents
+    # (markup_writer_fold "layout": every visible character's effective region carries its layout, at the three levels)
+    from . import markup_writer_fold
+    markup_writer_fold.run(ctx, report, {"layout": ("R-COMPLETE-CASES", "1")})
 
 
 def webvtt_arithmetic(ctx, report, folder):
